@@ -105,7 +105,11 @@ def run(ctx):
             try:
                 with warnings.catch_warnings():
                     warnings.simplefilter("ignore")
-                    fp = FlowPropertiesTwoPhase.from_table(tb2, krt, rho, phi, sw, float(P[len(P) // 2]))
+                    # the caller's density mapping lists its three keys in whatever order it was built (what the keys say decides)
+                    rho_how, rho_arg = [("oil, gas, water", dict(rho)), ("water, gas, oil", {q: rho[q] for q in ("rho_w0", "rho_g0", "rho_o0")}),
+                                        ("gas, oil, water", {q: rho[q] for q in ("rho_g0", "rho_o0", "rho_w0")}), ("gas, water, oil", {q: rho[q] for q in ("rho_g0", "rho_w0", "rho_o0")})][k % 4]
+                    inp = dict(**inp, density_mapping_key_order=rho_how)
+                    fp = FlowPropertiesTwoPhase.from_table(tb2, krt, rho_arg, phi, sw, float(P[len(P) // 2]))
                 ta = np.asarray(fp.pvt_props["alpha"], float)
                 wl = doc_mobility(P, tb2["So"], pvt, kr)
                 wc = doc_storage(P + 0.5, tb2["So"], sw, phi, pvt) - doc_storage(P - 0.5, tb2["So"], sw, phi, pvt)
